@@ -2,13 +2,12 @@ use super::{CrateTypes, Language};
 use crate::language::SupportedLanguage;
 use crate::parser::{remove_dash_from_identifier, ParsedData};
 use crate::rust_types::{
-    RustConst, RustEnum, RustEnumVariant, RustField, RustStruct, RustType, RustTypeAlias,
+    RustConst, RustEnum, RustEnumVariant, RustField, RustStruct, RustTypeAlias,
     RustTypeFormatError, SpecialRustType,
 };
 use itertools::Itertools;
 use joinery::JoinableIterator;
 use lazy_format::lazy_format;
-use std::ops::Deref;
 use std::{collections::HashMap, io::Write};
 
 /// All information needed for Scala type-code
@@ -489,31 +488,14 @@ impl Scala {
                 })
             })
             .collect_vec();
+        // An unsigned integer may sit at any depth of a type expression (`Vec<Vec<u8>>`,
+        // `HashMap<String, Vec<u16>>`, `[u32; 2]`, a generic argument, ...).
         itertools::concat(vec![types_in_aliases, types_in_structs, types_in_enum])
             .iter()
-            .flat_map(|ty| match ty {
-                RustType::Generic { id: _, parameters } => parameters.clone(),
-                RustType::Special(SpecialRustType::Option(ty) | SpecialRustType::Vec(ty)) => {
-                    vec![ty.deref().clone()]
-                }
-                RustType::Special(SpecialRustType::HashMap(kty, vty)) => {
-                    vec![kty.deref().clone(), vty.deref().clone()]
-                }
-                RustType::Special(_) => vec![ty.clone()],
-                RustType::Simple { .. } => vec![],
-            })
             .any(|ty| {
-                matches!(
-                    ty,
-                    RustType::Special(
-                        SpecialRustType::U8
-                            | SpecialRustType::U16
-                            | SpecialRustType::U32
-                            | SpecialRustType::U53
-                            | SpecialRustType::U64
-                            | SpecialRustType::USize,
-                    )
-                )
+                ["u8", "u16", "u32", "U53", "u64", "usize"]
+                    .iter()
+                    .any(|unsigned| ty.contains_type(unsigned))
             })
     }
 }
